@@ -952,6 +952,9 @@ proof fn lemma_pieces_final_mono(hps: Seq<Piece>, ents: Seq<(u32, u32)>, m: int,
         assert(piece_depth(hps[q], ents) && hps[q].e <= m);
     }
 }
+/// the bound up to which the pending coverage is final: the next entry's start; after the LAST entry of the chromosome
+/// everything (ends are u32)
+spec fn zbound_of(next_val: Option<u32>) -> u32 { if next_val.is_some() { next_val.unwrap() } else { u32::MAX } }
 proof fn lemma_tot_push(h: Seq<Value>, v: Value)
     ensures tot(h.push(v)) == tot(h) + (v.end - v.start),
 {
@@ -974,41 +977,33 @@ fn process_val_zoom__level(zoom_item: &mut ZoomItem, options: &BBIWriteOptions, 
         tot(hist) == cnt(ents, 0, item_start as int),
         zoom_ok(*old(zoom_item), hist, prev_end, prev_end, chrom_id, options.items_per_slot as int, hist.len() as int),
     ensures
-        ({
-            let ents2 = ents.push((item_start, item_end));
-            let next_start = if next_val.is_some() { next_val.unwrap() } else { u32::MAX };
-            let ps = out@.1;
-            let h2 = hist + vals_of(ps);
-            let b = flushed_to(ps, item_start as int);
-            let hi0 = hi_of(old(zoom_item).overlap@, item_start as int);
-            
-            &&& segs_ok(final(zoom_item).overlap@, out@.0, next_start as int, ents2)
-            
-            &&& segs_ok(final(zoom_item).overlap@, out@.0, b, ents2)
-            &&& item_start <= b <= next_start
-            &&& (final(zoom_item).overlap@.len() > 0 ==> b == next_start)
-            
-            &&& pieces_ok(ps, item_start as int, b, ents2)
-            
-            &&& hist_ok(h2) && before(h2, b)
-            
-            &&& h2 == vals_of(hps + ps) && pieces_final(hps + ps, ents2, b)
-            
-            &&& tot(h2) == cnt(ents2, 0, next_start as int)
-            
-            &&& zoom_ok(*final(zoom_item), h2, b, b, chrom_id, options.items_per_slot as int, h2.len() as int)
-            
-            &&& final(zoom_item).size == old(zoom_item).size
-            
-            &&& final(zoom_item).records@.len() < options.items_per_slot
-            
-            &&& (next_val.is_none() ==> final(zoom_item).live_info.is_none() && final(zoom_item).records@.len() == 0 && final(zoom_item).overlap@.len() == 0)
-            
-            &&& old(zoom_item).channel.log().is_prefix_of(final(zoom_item).channel.log())
-            
-            &&& (final(zoom_item).overlap@.len() > 0 ==> final(zoom_item).overlap@.last().end == imax(hi0, item_end as int))
-            &&& (final(zoom_item).overlap@.len() == 0 ==> imax(hi0, item_end as int) <= next_start)
-        }),
+        
+        segs_ok(final(zoom_item).overlap@, out@.0, zbound_of(next_val) as int, ents.push((item_start, item_end))),
+        
+        segs_ok(final(zoom_item).overlap@, out@.0, flushed_to(out@.1, item_start as int), ents.push((item_start, item_end))),
+        item_start <= flushed_to(out@.1, item_start as int) <= zbound_of(next_val),
+        final(zoom_item).overlap@.len() > 0 ==> flushed_to(out@.1, item_start as int) == zbound_of(next_val),
+        
+        pieces_ok(out@.1, item_start as int, flushed_to(out@.1, item_start as int), ents.push((item_start, item_end))),
+        
+        hist_ok((hist + vals_of(out@.1))) && before((hist + vals_of(out@.1)), flushed_to(out@.1, item_start as int)),
+        
+        (hist + vals_of(out@.1)) == vals_of(hps + out@.1) && pieces_final(hps + out@.1, ents.push((item_start, item_end)), flushed_to(out@.1, item_start as int)),
+        
+        tot((hist + vals_of(out@.1))) == cnt(ents.push((item_start, item_end)), 0, zbound_of(next_val) as int),
+        
+        zoom_ok(*final(zoom_item), (hist + vals_of(out@.1)), flushed_to(out@.1, item_start as int), flushed_to(out@.1, item_start as int), chrom_id, options.items_per_slot as int, (hist + vals_of(out@.1)).len() as int),
+        
+        final(zoom_item).size == old(zoom_item).size,
+        
+        final(zoom_item).records@.len() < options.items_per_slot,
+        
+        next_val.is_none() ==> final(zoom_item).live_info.is_none() && final(zoom_item).records@.len() == 0 && final(zoom_item).overlap@.len() == 0,
+        
+        old(zoom_item).channel.log().is_prefix_of(final(zoom_item).channel.log()),
+        
+        final(zoom_item).overlap@.len() > 0 ==> final(zoom_item).overlap@.last().end == imax(hi_of(old(zoom_item).overlap@, item_start as int), item_end as int),
+        final(zoom_item).overlap@.len() == 0 ==> imax(hi_of(old(zoom_item).overlap@, item_start as int), item_end as int) <= zbound_of(next_val),
 {
         let ghost ents2 = ents.push((item_start, item_end));
         let ghost hi0 = hi_of(zoom_item.overlap@, item_start as int);
